@@ -1,8 +1,221 @@
-/-! stub driver: answers "bad-op" to every line until the family's model is wired in -/
-partial def loop (h : IO.FS.Stream) : IO Unit := do
-  let line ← h.getLine
-  if line.isEmpty then return ()
-  IO.println "bad-op"
-  loop h
+import NbioVerif.Model.Pipeline
+import NbioVerif.Model.ClientFifo
+import NbioVerif.DrvCommon
+/-! pipedrv: predicts, from the request history of each connection, what the clients of harness `he2e`
+observe (C10).  Server side = `Pipeline` (run under the schedule given on the K line, then drained);
+nbhttp client side = `ClientFifo` on top of it.  Line protocol: see harness/cmd/he2e/main.go. -/
+open Pipeline
 
-def main : IO Unit := do loop (← IO.getStdin)
+structure Q where
+  rid : Nat
+  major : Nat
+  minor : Nat
+  conn : List (List UInt8)
+  method : String
+  st : Nat
+  sz : Nat
+  rb : Nat
+
+structure H where
+  cid : Nat
+  kind : String
+  sched : List Act
+  got : Nat
+  lost : List Nat
+  failAt : Nat
+  qs : Array Q
+
+def hex16 (x : UInt64) : String :=
+  let rec go : Nat → Nat → List Char → List Char
+    | 0, _, acc => acc
+    | f + 1, n, acc => go f (n / 16) (Drv.hexDigit (n % 16) :: acc)
+  String.ofList (go 16 x.toNat [])
+
+/-- FNV-1a-64 of the tag repeated to `n` bytes, without building the body -/
+def fnvRepeat (tag : ByteArray) (n : Nat) : UInt64 := Id.run do
+  let mut h : UInt64 := 14695981039346656037
+  if tag.size == 0 then return h
+  for i in [0:n] do
+    h := (h ^^^ (tag.get! (i % tag.size)).toUInt64) * 1099511628211
+  return h
+
+/-- FNV-1a-64 of lp.Pattern(n, p) -/
+def fnvPattern (n p : Nat) : UInt64 := Id.run do
+  let mut h : UInt64 := 14695981039346656037
+  for i in [0:n] do
+    h := (h ^^^ (UInt8.ofNat ((i * 7 + p) % 256)).toUInt64) * 1099511628211
+  return h
+
+def bodyField (cid : Nat) (q : Q) : String :=
+  let n := if q.method == "HEAD" then 0 else q.sz
+  let tag := s!"[c{cid}r{q.rid}]".toUTF8
+  s!"{n}:{hex16 (fnvRepeat tag n)}"
+
+def rbField (q : Q) : String :=
+  let n := if q.method == "POST" then q.rb else 0
+  s!"{n}:{hex16 (fnvPattern n (q.rid % 256))}"
+
+def answeredLine (cid : Nat) (q : Q) (closed cb : String) : String :=
+  s!"R {q.rid} st={q.st} body={bodyField cid q} rb={rbField q} closed={closed} cb={cb}"
+
+def parseSched (s : String) : Option (List Act) :=
+  s.toList.mapM fun c =>
+    match c with
+    | 'p' => some Act.parse
+    | 's' => some Act.start
+    | 'w' => some Act.write
+    | 'f' => some Act.finish
+    | _ => none
+
+/-- the server side of one connection: request k's response is the single token k (one conn write) -/
+def serve (sync : Bool) (sched : List Act) (qs : List Q) : St Nat :=
+  let reqs : List (Req Nat) := qs.mapIdx fun i q =>
+    { major := q.major, minor := q.minor, connVals := q.conn, pieces := [[i]] }
+  let cfg : Cfg Nat := { reqs, sync }
+  drain cfg (4 * qs.length + 8) init sched
+
+/-- split a history into the connections a reconnecting client (net/http, nbhttp.Client pool) uses:
+    a new connection after every request whose close decision is true -/
+def splitAtClose (qs : List Q) : List (List Q) :=
+  let rec go : List Q → List Q → List (List Q)
+    | [], cur => if cur.isEmpty then [] else [cur.reverse]
+    | q :: rest, cur =>
+      if closeDecision q.major q.minor q.conn then (q :: cur).reverse :: go rest []
+      else go rest (q :: cur)
+  go qs []
+
+def outcome (sync : Bool) (h : H) : List String :=
+  let qs := h.qs.toList
+  match h.kind with
+  | "raw" =>
+    let s := serve sync h.sched qs
+    qs.mapIdx fun i q =>
+      if s.wire[i]? == some i then
+        answeredLine h.cid q (if i + 1 == s.wire.length && s.closed then "1" else "0") "x"
+      else s!"R {q.rid} none cb=x"
+  | "nbc" =>
+    let s := serve sync h.sched qs
+    let m := s.wire.length
+    -- the client: n pipelined Do, the responses its parser delivered (environment input `got`, at most
+    -- what the server sent), then the close (server's or the harness's ClientConn.Close)
+    let got := min h.got m
+    let ops : List ClientFifo.Op :=
+      qs.map (fun _ => ClientFifo.Op.do_ true true) ++ (List.replicate got (ClientFifo.Op.onResponse 0 false)) ++ [.closeAll]
+    let c := ClientFifo.run {} ops
+    qs.mapIdx fun i q =>
+      let cnt := ClientFifo.count c i
+      if c.calls.contains (i, ClientFifo.Out.resp (some i)) && s.wire[i]? == some i then
+        answeredLine h.cid q "x" (toString cnt)
+      else s!"R {q.rid} none cb={cnt}"
+  | "nbx" =>
+    -- forced client schedule: requests < failAt are written to connection 0 and answered, but their response
+    -- job is held; the write of request failAt fails (connection 0 dropped); the rest goes to connection 1;
+    -- then connection 0's stale responses and its end arrive, then connection 1's responses
+    let k := min h.failAt qs.length
+    let rest := qs.drop (k + 1)
+    let s := serve sync h.sched rest
+    let m := min h.got s.wire.length
+    let ops : List ClientFifo.Op :=
+      List.replicate k (ClientFifo.Op.do_ true true) ++ (if k < qs.length then [ClientFifo.Op.do_ true false] else []) ++
+      List.replicate rest.length (ClientFifo.Op.do_ true true) ++
+      List.replicate k (ClientFifo.Op.onResponse 0 false) ++ [ClientFifo.Op.connClosed 0] ++
+      List.replicate m (ClientFifo.Op.onResponse 1 false) ++ [ClientFifo.Op.closeAll]
+    let c := ClientFifo.run {} ops
+    qs.mapIdx fun i q =>
+      let cnt := ClientFifo.count c i
+      if c.calls.contains (i, ClientFifo.Out.resp (some i)) then answeredLine h.cid q "x" (toString cnt)
+      else s!"R {q.rid} none cb={cnt}"
+  | "std" | "nbcli" =>
+    let cb := if h.kind == "nbcli" then "1" else "x"
+    (splitAtClose qs).flatMap fun seg =>
+      let s := serve sync h.sched seg
+      seg.mapIdx fun i q =>
+        -- pool client: one exchange per Do; a callback that got an error is an environment input (`lost=`)
+        if s.wire[i]? == some i && !h.lost.contains q.rid then answeredLine h.cid q "x" cb
+        else s!"R {q.rid} none cb={cb}"
+  | _ => qs.map fun _ => "bad-op"
+
+def parseVer (v : String) : Option (Nat × Nat) :=
+  match v with
+  | "11" => some (1, 1)
+  | "10" => some (1, 0)
+  | _ => none
+
+def parseConn (c : String) : List (List UInt8) :=
+  if c == "-" then [] else (c.splitOn "|").map Drv.unhex
+
+def parseQ (ws : List String) : Option Q := do
+  let rid ← (ws[2]?).bind String.toNat?
+  let (major, minor) ← (Drv.field ws "v").bind parseVer
+  let conn ← (Drv.field ws "c").map parseConn
+  let method ← Drv.field ws "m"
+  let st ← (Drv.field ws "st").bind String.toNat?
+  let sz ← (Drv.field ws "sz").bind String.toNat?
+  let rb ← (Drv.field ws "rb").bind String.toNat?
+  if method != "GET" && method != "POST" && method != "HEAD" then none
+  else some { rid, major, minor, conn, method, st, sz, rb }
+
+structure DS where
+  iomod : String := ""
+  cur : Option H := none
+
+def flush (s : DS) : IO DS := do
+  match s.cur with
+  | none => pure s
+  | some h =>
+    let sync := s.iomod == "bl" || (s.iomod == "mx" && h.cid % 2 == 0)
+    for l in outcome sync h do IO.println l
+    pure { s with cur := none }
+
+partial def loop (h : IO.FS.Stream) (s : DS) : IO Unit := do
+  let line ← h.getLine
+  if line.isEmpty then
+    let _ ← flush s
+    return ()
+  let ws := (line.trimAscii.toString.splitOn " ").filter (· ≠ "")
+  match ws with
+  | "C" :: iomod :: tls :: ep :: _ =>
+    let s ← flush s
+    if (iomod == "nb" || iomod == "bl" || iomod == "mx") && (tls == "0" || tls == "1") &&
+        ["lt", "et", "os", "eta", "osa"].contains ep then
+      IO.println "ok"
+      loop h { s with iomod }
+    else
+      IO.println "bad-op"
+      loop h s
+  | "K" :: cid :: kind :: _ =>
+    let s ← flush s
+    match cid.toNat?, (Drv.field ws "sched").bind parseSched with
+    | some cid, some sched =>
+      if ["raw", "std", "nbc", "nbcli", "nbx"].contains kind && s.iomod != "" then
+        let got := ((Drv.field ws "got").bind String.toNat?).getD 0
+        let lost := (((Drv.field ws "lost").getD "").splitOn ",").filterMap String.toNat?
+        let failAt := ((Drv.field ws "fail").bind String.toNat?).getD 0
+        IO.println "ok"
+        loop h { s with cur := some { cid, kind, sched, got, lost, failAt, qs := #[] } }
+      else
+        IO.println "bad-op"
+        loop h s
+    | _, _ =>
+      IO.println "bad-op"
+      loop h s
+  | "Q" :: cid :: _ =>
+    match s.cur, parseQ ws with
+    | some hh, some q =>
+      if cid.toNat? == some hh.cid then loop h { s with cur := some { hh with qs := hh.qs.push q } }
+      else
+        -- a request of another connection than the current history: the protocol groups them
+        let s ← flush s
+        IO.println "bad-op"
+        loop h s
+    | _, _ =>
+      let s ← flush s
+      IO.println "bad-op"
+      loop h s
+  | [] => loop h s
+  | _ =>
+    let s ← flush s
+    IO.println "bad-op"
+    loop h s
+
+def main : IO Unit := do loop (← IO.getStdin) {}
